@@ -13,6 +13,7 @@
 #include "covsig.hpp"
 #include "conc_ops.hpp"
 #include <atomic>
+#include <cfenv>
 #include <cinttypes>
 #include <cxxabi.h>
 #include <cstdio>
@@ -72,8 +73,14 @@ static void find_regions() {
    regions.push_back({(char*)&canary_state, sizeof canary_state});
 }
 typedef std::vector<char> Image;
-static Image snap() { Image im; for (auto& r : regions) im.insert(im.end(), r.p, r.p + r.n); return im; }
-static void restore(const Image& im) { size_t o = 0; for (auto& r : regions) { std::memcpy(r.p, im.data() + o, r.n); o += r.n; } }
+// the image ends with the floating-point environment of the calling thread (rounding mode and the STICKY status
+// flags): code that consults fetestexcept() without clearing first makes a result depend on earlier evaluations
+static Image snap() { Image im; for (auto& r : regions) im.insert(im.end(), r.p, r.p + r.n);
+   fenv_t fe; std::memset(&fe, 0, sizeof fe); fegetenv(&fe); int ex = fetestexcept(FE_ALL_EXCEPT), rm = fegetround();
+   im.insert(im.end(), (char*)&ex, (char*)&ex + sizeof ex); im.insert(im.end(), (char*)&rm, (char*)&rm + sizeof rm); return im; }
+static void restore(const Image& im) { size_t o = 0; for (auto& r : regions) { std::memcpy(r.p, im.data() + o, r.n); o += r.n; }
+   int ex, rm; std::memcpy(&ex, im.data() + o, sizeof ex); std::memcpy(&rm, im.data() + o + sizeof ex, sizeof rm);
+   feclearexcept(FE_ALL_EXCEPT); if (ex) feraiseexcept(ex); fesetround(rm); }
 static uint64_t fnv(const char* p, size_t n, uint64_t h = 1469598103934665603ull) { for (size_t i = 0; i < n; i++) { h ^= (unsigned char)p[i]; h *= 1099511628211ull; } return h; }
 static uint64_t hash_regions() { uint64_t h = 1469598103934665603ull; for (auto& r : regions) h = fnv(r.p, r.n, h); return h; }
 static Image shared_bytes() {
